@@ -8,6 +8,12 @@ def ref(prop, case, agg, options=None):
     engine.check_ref(prop, case, agg, options)
 
 
+def ref_both(prop, case, agg):
+    """Against the reference at both optimisation levels (the statements do not depend on the level)."""
+    engine.check_ref(prop, case, agg, None)
+    engine.check_ref(prop, case, agg, {"optimize": True})     # the failure record carries the options it was found with
+
+
 # ---------------------------------------------------------------------------------------------
 # C02: differential optimisation off / on
 # ---------------------------------------------------------------------------------------------
